@@ -588,7 +588,7 @@ def c07_determinism(seed, tier, cov):
     from concurrent.futures import ThreadPoolExecutor
     here = os.path.dirname(os.path.abspath(__file__))
     n_cases = 3 if tier == "quick" else 16
-    variants = [("0", "plain"), ("1", "plain"), ("random", "perturbed"), ("0", "twice"), ("12345", "perturbed"), ("0", "after_other")]
+    variants = [("0", "plain"), ("1", "plain"), ("random", "perturbed"), ("0", "twice"), ("12345", "perturbed"), ("0", "after_other"), ("0", "after_twin")]
     jobs = [(ci, hs, mode) for ci in range(n_cases) for hs, mode in variants]
 
     def run(job):
@@ -635,7 +635,7 @@ CLAIMS["C07"] = dict(level="other", suites=["C"], design="5/C07", extra_checks=c
    text="PARTIAL. A determinism theorem about a Gallina function is empty, so what is proved (props/C07.v) is the seed plumbing (every component seeded by its own draw, in creation order) and that the model's outcome "
         "is a function of configuration and tapes by type. What decides the property is a differential test, labelled as such: configurations covering every built-in market/agent/event type (correlated fundamentals, "
         "randomised endowments, agents listing several market groups, high-frequency agents behind a rate strictly between 0 and 1, extends/ranges/legacy keys) are run in fresh processes with PYTHONHASHSEED 0, 1, "
-        "random, 12345, with Python's and NumPy's global generators reseeded and consumed before setup and between setup and run, twice in one process with a different seed first, and after a different configuration over the same market names (other volatilities, drift and correlations; every other case has uncorrelated fundamentals) in the same process; the SHA-256 of every logger "
+        "random, 12345, with Python's and NumPy's global generators reseeded and consumed before setup and between setup and run, twice in one process with a different seed first, and after a different configuration over the same market names (other volatilities, drift and correlations; every other case has uncorrelated fundamentals) and after the same configuration with only the fundamental correlations toggled, in the same process; the SHA-256 of every logger "
         "record, all price series and final holdings must coincide and the settings dict must be unchanged; json_extends must leave the settings untouched on every generated inheritance graph (suite C).",
    note=COMMON_NOTE + "Absence of hidden inputs inside CPython/NumPy is established by the differential test only.")
 
